@@ -3,4 +3,6 @@ import FcpModel.Schema
 import FcpModel.Wire
 import FcpModel.WireTrunc
 import FcpModel.PyCodec
+import FcpModel.PyBufLemmas
+import FcpModel.PyCodecRefine
 import FcpModel.Json
